@@ -42,6 +42,10 @@ func checkC10(P *Prog, r *Result) {
 	// belongs to that execution alone (released once: C07's release rule) and starts from the empty root (C07's
 	// re-initialisation rule), else segments of another execution show up in the keys. (No floor: a tree that stops
 	// pooling path builders has nothing to release or re-initialise, and the property holds.)
+	// the IssuePath that overrides the path is the one of the test the schema runs: the issue is built from the
+	// context's current test, set from the schema's own copy right before the call, not from a Test value a wrapper
+	// closed over when it was made (C02's current-test rule)
+	shareRule(P, r, checkC02, "C02/current-test", nil, "C10/issuepath-of-running-test", 1)
 	shareRule(P, r, checkC07, "C07/release", func(o Obligation) bool { return strings.Contains(o.Construct, "PathBuilder") }, "C10/path-builder-own", 0)
 	shareRule(P, r, checkC07, "C07/reinit", func(o Obligation) bool { return strings.Contains(o.Construct, "PathBuilder") }, "C10/path-builder-clean", 0)
 	_ = R
